@@ -140,6 +140,12 @@ class Relax:
         if r is None:
             if z3.is_app(e) and e.decl().kind() == z3.Z3_OP_ITE:
                 r = z3.If(self.b(e.arg(0)), self.term(e.arg(1)), self.term(e.arg(2)))
+            elif z3.is_app(e) and e.num_args() > 0 and all(not z3.is_fp(c) and not z3.is_fprm(c) for c in e.children()):
+                # bit-vector / integer operator over sub-terms that merely CONTAIN float terms deeper down: keep the operator
+                try:
+                    r = e.decl()(*[self.term(c) for c in e.children()])
+                except z3.Z3Exception:
+                    r = self.fresh(e.sort(), 't')
             else:
                 r = self.fresh(e.sort(), 't')
             self.memo_b[k] = r; self.keep.append(e)
